@@ -227,7 +227,7 @@ class LogicConv2d(_PersistentWiring, nn.Module):
     def _walsh_activation(self, x):
         """Activation of a Walsh level: sampling-mode dependent in training, sign in eval."""
         if not self.training:
-            return (x > 0).to(torch.float32)
+            return (x > 0).to(x.dtype)
         if self.forward_sampling == "soft":
             return soft_walsh(x, tau=self.temperature)
         elif self.forward_sampling == "hard":
